@@ -21,7 +21,10 @@ EXPLANATION = (
     "scores raise, an unknown name with a parent delegates with the same arguments, and only the best candidate's function "
     "is returned. R10.3 every function is registered before any body is typed, imports before both. R10.4 a non-negative "
     "score implies equal argument count (or trailing optional parameters). R10.5 the chosen function is the one lowered "
-    "(= R03.4/R03.6). R10.6 every method IsCompatible/Match call on a type narrowed by IsX() predicates exists on that type."
+    "(= R03.4/R03.6). R10.6 every method IsCompatible/Match call on a type narrowed by IsX() predicates exists on that type. "
+    "R10.2 also: Scope.FindFunction folded over all 155 vectors of up to three candidate scores from {-1,0,1,2,5} - none "
+    "viable -> no-matching error, unique lowest -> that candidate, tie for the lowest -> ambiguity error (this decides "
+    "rewrites of the ranking the path rules do not model). R10.3 includes the module interface importers register (= R16.5)."
 )
 NOT_DECIDED = "the full viability/ranking table over signature sets (IsCompatible as a function of concrete types is a finite function whose decision is its evaluation)"
 ASSUMPTIONS = ["scores: 0 exact, positive = number of conversions, negative = not viable (documented in Function.Match)"]
